@@ -274,8 +274,13 @@ def gen_value(r, typ, closer=None):
         u = r.choice(['a#b~c%d&e', 'http://x.org/~u/?q=1&r=2#f', 'Wa%Wb'])
         return u, ['text', u], 'url'
     if typ == 'str':
-        if r.random() < 0.25:
+        k = r.random()
+        if k < 0.25:
             return 'Wa{Wb}Wc', ['str', 'WaWbWc'], 'str/inner-group'
+        if k < 0.4:
+            # the whole value is one group of its own (protecting a comma, a bracket), or an empty one
+            return r.choice([('{WaWb}', ['str', 'WaWb'], 'str/whole-value-a-group'), ('{Wa,Wb}', ['str', 'Wa,Wb'], 'str/whole-value-a-group'),
+                             ('{}', ['str', ''], 'str/whole-value-an-empty-group')])
         s = ' '.join(r.choice(WORDS) for _ in range(r.randint(1, 3)))
         return s, ['str', s.replace(' ', '')], 'str'
     if typ in ('int', 'number', 'count'):
